@@ -860,3 +860,50 @@ B('g_standin_render_made_by_a_private_lambda_factory', ['C10'], 'R10.e',
   (R, _CARRY, '            render = route.render if callable(route.render) else _passthrough_for(unbound_route.render)\n'))
 T('g_standin_render_marker_through_a_named_temporary', ['C10'],
   (R, _CARRY, '            fallback = _noop_render\n            render = route.render if callable(route.render) else fallback\n'))
+
+# ---- seventh pass (round x): the inventoried writer of the source cache moved, unchanged, into a new private module
+_CCODE_DEF = ('def compile_code(code_str, name, env=None, verbose=_VERBOSE):\n'
+              "    code_hash = hashlib.sha1(code_str.encode('utf8')).hexdigest()[:16]\n"
+              '    unique_filename = "<sinter generated %s %s>" % (name, code_hash)\n'
+              "    code = compile(code_str, unique_filename, 'single')\n"
+              '    if verbose:\n'
+              '        print(code_str)\n'
+              '    exec(code, env)\n'
+              '\n'
+              '    linecache.cache[unique_filename] = (\n'
+              '        len(code_str),\n'
+              '        None,\n'
+              '        code_str.splitlines(True),\n'
+              '        unique_filename,\n'
+              '    )\n'
+              '    return env[name]\n')
+_CCODE_HEAD = '# -*- coding: utf-8 -*-\nimport hashlib\nimport linecache\n\n_VERBOSE = False\n\n\n'
+_CCODE_NEW = 'clastic/_srccache.py'
+
+
+def _ccode_moved(text, back="from ._srccache import compile_code\n", keep=False, extra=""):
+    return ((S, _CCODE_DEF, _CCODE_DEF if keep else ""), (S, "_VERBOSE = False\n", "_VERBOSE = False\n" + back),
+            (_CCODE_NEW, '__NEW__', _CCODE_HEAD + text + extra))
+T('x_cache_writer_lives_in_a_new_private_module', ['C11'], *_ccode_moved(_CCODE_DEF))
+B('x_moved_cache_writer_keys_without_hash', ['C11'], 'R11.d',
+  *_ccode_moved(_CCODE_DEF.replace('% (name, code_hash)', '% (name, len(code_str))')))
+# a *new* writer of the same process-wide cache next to the moved one: not the inventoried function
+B('x_second_cache_writer_in_the_new_module', ['C11'], 'R11.d',
+  *_ccode_moved(_CCODE_DEF, extra='\n\ndef forget_code(filename):\n    linecache.cache.pop(filename, None)\n'))
+# a function of the inventoried name in another module while the inventoried one is still where it was: a second writer
+B('x_same_named_cache_writer_in_another_module', ['C11'], 'R11.d',
+  *_ccode_moved(_CCODE_DEF, back="", keep=True))
+# the moved module grows a module-level table that the moved writer fills: new process-wide state
+B('x_moved_cache_writer_also_fills_a_new_table', ['C11'], 'R11.d',
+  *_ccode_moved(_CCODE_DEF.replace('    return env[name]\n', '    _COMPILED[unique_filename] = env[name]\n    return env[name]\n'),
+                extra='\n_COMPILED = {}\n'))
+# moved and reached through the module rather than imported back under its name
+_CCODE_CALL = "    return compile_code(call_str, inner_name, {'funcs': funcs}, verbose=verbose)\n"
+_CCODE_CORE = (C, "from ..sinter import make_chain, get_arg_names, compile_code\n",
+               "from ..sinter import make_chain, get_arg_names\nfrom .._srccache import compile_code\n")
+T('x_cache_writer_in_a_new_module_called_through_it', ['C11'],
+  *(_ccode_moved(_CCODE_DEF, back="from . import _srccache\n") +
+    ((S, _CCODE_CALL, _CCODE_CALL.replace('compile_code(', '_srccache.compile_code(')), _CCODE_CORE)))
+B('x_cache_writer_called_through_new_module_keys_without_hash', ['C11'], 'R11.d',
+  *(_ccode_moved(_CCODE_DEF.replace('% (name, code_hash)', '% (name, len(code_str))'), back="from . import _srccache\n") +
+    ((S, _CCODE_CALL, _CCODE_CALL.replace('compile_code(', '_srccache.compile_code(')), _CCODE_CORE)))
